@@ -210,8 +210,11 @@ class Ctx:
         return cases
 
     def exec_impl(self, cases):
-        to = getattr(self.prop, "EXEC_TIMEOUT", 1800)
-        rc, out, err = run([self.bin, "exec"], inp="\n".join(cases) + "\n", timeout=to)
+        to = getattr(self.prop, "EXEC_TIMEOUT", 900)
+        try:
+            rc, out, err = run([self.bin, "exec"], inp="\n".join(cases) + "\n", timeout=to)
+        except subprocess.TimeoutExpired:
+            return self.exec_bisect(cases)
         lines = out.split("\n")
         if lines and lines[-1] == "":
             lines.pop()
@@ -221,30 +224,30 @@ class Ctx:
         return lines
 
     def exec_bisect(self, cases):
+        """run in chunks; a chunk that dies or hangs is split until the single killing case is isolated,
+        which is then reported as the observation `crash:rc=..` or `hang`"""
+        case_to = getattr(self.prop, "CASE_TIMEOUT", 60)
         res = []
-        i = 0
-        chunk = max(1, len(cases) // 16)
-        while i < len(cases):
-            part = cases[i:i + chunk]
+        todo = [cases[i:i + max(1, len(cases) // 16)] for i in range(0, len(cases), max(1, len(cases) // 16))]
+        while todo:
+            part = todo.pop(0)
             try:
-                rc, out, err = run([self.bin, "exec"], inp="\n".join(part) + "\n", timeout=300)
-            except subprocess.TimeoutExpired:
-                rc, out = -9, ""
-            lines = [l for l in out.split("\n")]
+                rc, out, err = run([self.bin, "exec"], inp="\n".join(part) + "\n", timeout=case_to * (1 if len(part) == 1 else 4))
+                hung = False
+            except subprocess.TimeoutExpired as e:
+                rc, out, hung = -9, (e.stdout.decode() if isinstance(e.stdout, bytes) else (e.stdout or "")), True
+            lines = out.split("\n")
             if lines and lines[-1] == "":
                 lines.pop()
             if rc == 0 and len(lines) == len(part):
                 res += lines
-                i += len(part)
             elif len(part) == 1:
-                res.append("crash:rc=%s" % rc)
-                i += 1
+                res.append("hang" if hung else "crash:rc=%s" % rc)
             else:
-                res += lines[:len(lines)]
-                i += len(lines)
-                chunk = 1 if chunk <= 4 else chunk // 4
-                continue
-            chunk = max(chunk, 1)
+                done = min(len(lines), len(part) - 1)      # complete lines before the death are kept
+                res += lines[:done]
+                rest = part[done:]
+                todo = [rest[:1], rest[1:]] + todo if len(rest) > 1 else [rest] + todo
         return res
 
     def run_model(self, cases):
@@ -483,4 +486,18 @@ def main():
 
 
 if __name__ == "__main__":
-    main()
+    try:
+        main()
+    except SystemExit:
+        raise
+    except BaseException:
+        import traceback
+        pid = sys.argv[1].upper() if len(sys.argv) > 1 else "?"
+        os.makedirs(os.path.join(ROOT, "replays"), exist_ok=True)
+        rp = os.path.join(ROOT, "replays", f"{pid}-machinery-error.json")
+        json.dump({"property": pid, "failing_input_found": False,
+                   "no_failing_input_found": "the check itself failed before it could decide; the property is not shown to hold",
+                   "traceback": traceback.format_exc()}, open(rp, "w"), indent=1)
+        traceback.print_exc()
+        print(f"VIOLATION property={pid} replay={rp} no-failing-input-found")
+        sys.exit(1)
